@@ -545,12 +545,11 @@ def make_dict_hash(d):
         raise TypeError(
             'The d argument must be of type dict!')
 
-    # A note on the ordering of Python dictionary items: The items are ordered
-    # internally according to the hash value of their keys. Hence, if we don't
-    # insert more dictionary items, the order of the items won't change. Thus,
-    # we can just take the items list and make a tuple to create a hash of it.
-    # The hash will be the same for two dictionaries having the same items.
-    return hash(tuple(d.items()))
+    # Python dictionaries preserve the insertion order of their items. The hash
+    # must not depend on that order, because two dictionaries holding the same
+    # items compare equal regardless of the order they were filled. Hence, the
+    # hash is calculated from the (unordered) set of items.
+    return hash(frozenset(d.items()))
 
 
 class ObjectCollection(
